@@ -3,7 +3,7 @@
 From Coq Require Import String List Bool.
 From KV Require Import Lib.Str Lib.ODict Model.PreserveCore Model.Preserve
                        Proofs.PreserveStr Proofs.PreserveTree Proofs.PreserveTop.
-From KV Require Spec.RefExpand16 Model.EngineDomain07 Proofs.Shipped07Cpp.
+From KV Require Spec.RefExpand16 Model.EngineDomain07 Proofs.Shipped07Cpp Proofs.Shipped07Cs.
 Import ListNotations.
 Open Scope string_scope.
 
@@ -71,3 +71,12 @@ Theorem C01_fixed_point_shipped : forall (e : RefExpand16.elements) path (u : st
   = (on_disk u (items_of (Shipped07Cpp.fresh_cpp e)), []).
 Proof. exact Shipped07Cpp.fixed_point_cpp. Qed.
 Print Assumptions C01_fixed_point_shipped.
+
+(* ... and for the shipped Test.TEMPLATEStateMachine.cs (Props/C07.v: C07_wf_out_Test_TEMPLATEStateMachine_cs): names_ok_cs adds "no guard is named
+   like a state hook On<State>Entry / On<State>Exit"; user_lines_plain: the output of the file's user-tag line under the assignment is a plain line *)
+Theorem C01_fixed_point_shipped_cs : forall (e : RefExpand16.elements) path (u : string -> list string),
+  Shipped07Cs.names_ok_cs e = true -> EngineDomain07.user_lines_plain e Shipped07Cs.t_cs = true -> (forall k, block_ok (u k) = true) ->
+  regen_file path (Shipped07Cs.fresh_cs e) (on_disk u (items_of (Shipped07Cs.fresh_cs e)))
+  = (on_disk u (items_of (Shipped07Cs.fresh_cs e)), []).
+Proof. exact Shipped07Cs.fixed_point_cs. Qed.
+Print Assumptions C01_fixed_point_shipped_cs.
